@@ -156,8 +156,9 @@ def baseline():
 
 
 def prepare():
-    """called once by the driver before the jobs start (fills the baseline cache)"""
+    """called once by the driver before the jobs start (fills the baseline caches)"""
     baseline()
+    role_baseline()
 
 
 def token_lists_default():
@@ -454,3 +455,119 @@ def _twice(fn):
 g1_scratch.__lemma__.replay = _twice(g1_scratch)
 g2_restoration.__lemma__.replay = _twice(g2_restoration)
 g3_faults.__lemma__.replay = _twice(g3_faults)
+
+
+# ------------------------------------------------------------------------------------------ G4
+# Histories as the symbolic variable: the same strings in different syntactic roles (block phase / inline phase),
+# rendered one document after another in ONE fresh interpreter; which documents and in which order is chosen by the solver.
+
+ROLE_PROBES = [
+    '```&lt\nx\n```\n',                    # fence info string (block phase)
+    '[b](&lt)\n',                          # inline destination (inline phase)
+    '[r]: &lt "&copy"\n\n[r]\n',           # definition destination and title (block phase)
+    '[c](/u "&copy")\n',                   # inline title
+    '`&lt` &lt &copy\n',                   # code span and running text
+    '\\*a\\* \\&lt\n',                     # backslash escapes in running text
+    '[d](\\*a "\\*a")\n',                  # backslash escapes in an inline destination / title
+    '```\\*a\nx\n```\n\n[s]: \\*a\n\n[s]\n',   # backslash escapes in a fence info string and a definition
+]
+G4_RENDERERS = ('Html', 'Markdown', 'LaTeX')
+
+
+def run_history(rname, seq):
+    """the documents ROLE_PROBES[i] for i in seq, rendered one after another under renderer `rname` in ONE fresh plain interpreter"""
+    code = ('import json; import vfy.lemmas.c11 as c; from mistletoe import Document\n'
+            'cls, kw = [(k, w) for n, k, w in c.renderers() if n == %r][0]\n'
+            'outs = []\n'
+            'for i in %r:\n'
+            '    try:\n'
+            '        with cls(**kw) as r:\n'
+            '            outs.append(r.render(Document(c.ROLE_PROBES[i])))\n'
+            '    except Exception as e:\n'
+            '        outs.append("EXC " + type(e).__name__)\n'
+            'print("HIST " + json.dumps(outs))\n' % (rname, list(seq)))
+    env = dict(os.environ, PYTHONPATH='/verif:' + L.REPO, PYTHONHASHSEED='0')
+    out = subprocess.run(['/venv/bin/python', '-c', code], capture_output=True, text=True, env=env, timeout=300)
+    if 'HIST ' not in out.stdout:
+        raise L.HarnessLimit('history run gave no result: ' + out.stderr[-300:])
+    return json.loads(out.stdout.split('HIST ', 1)[1])
+
+
+_ROLE_BASE = {}
+
+
+def role_baseline():
+    """ROLE_PROBES[i] under each renderer of G4_RENDERERS, each in its own fresh interpreter (cached on disk by the tree's sources)"""
+    if 'b' in _ROLE_BASE:
+        return _ROLE_BASE['b']
+    import hashlib
+    import glob
+    from concurrent.futures import ThreadPoolExecutor
+    h = hashlib.sha256()
+    for f in sorted(glob.glob(L.REPO + '/mistletoe/**/*.py', recursive=True)):
+        h.update(open(f, 'rb').read())
+    h.update(repr((ROLE_PROBES, G4_RENDERERS)).encode())
+    path = os.path.join('/verif/.cache', 'c11-roles-%s.json' % h.hexdigest()[:24])
+    os.makedirs('/verif/.cache', exist_ok=True)
+    if os.path.exists(path):
+        try:
+            _ROLE_BASE['b'] = json.load(open(path))
+            return _ROLE_BASE['b']
+        except ValueError:
+            pass
+    jobs = [(r, i) for r in G4_RENDERERS for i in range(len(ROLE_PROBES))]
+    with ThreadPoolExecutor(8) as ex:
+        res = list(ex.map(lambda j: run_history(j[0], [j[1]])[0], jobs))
+    base = {r: [None] * len(ROLE_PROBES) for r in G4_RENDERERS}
+    for (r, i), o in zip(jobs, res):
+        base[r][i] = o
+    tmp = path + '.%d' % os.getpid()
+    json.dump(base, open(tmp, 'w'))
+    os.replace(tmp, path)
+    _ROLE_BASE['b'] = base
+    return base
+
+
+def _pick(x, n):
+    """the solver picks each member of the finite domain 0..n-1 (one path per value)"""
+    for v in range(n):
+        if x == v:
+            return v
+    return None
+
+
+def g4_replay(i1, i2, i3):
+    n = P('n')
+    seq = [i1, i2, i3][:n]
+    if not all(0 <= i < len(ROLE_PROBES) for i in seq):
+        return False, 'pre-condition false'
+    outs = run_history(P('r'), seq)
+    base = role_baseline()[P('r')]
+    for j, i in enumerate(seq):
+        if outs[j] != base[i]:
+            return True, ('%s renderer, history %r then %r: output %r, in a fresh interpreter %r'
+                          % (P('r'), [ROLE_PROBES[k] for k in seq[:j]], ROLE_PROBES[i], outs[j], base[i]))
+    return False, 'history %r under %s: every output equals the fresh one' % (seq, P('r'))
+
+
+@lemma('G4.histories', 'C11', quick=[{'r': r, 'n': 2} for r in G4_RENDERERS], thorough=[{'r': r, 'n': n} for r in G4_RENDERERS for n in (2, 3)], timeout=900, per_path=120,
+       replay=g4_replay, stubs=['each history runs concretely in a fresh plain interpreter; the solver only chooses the history'],
+       covers=['span_token.py:EscapeSequence.strip', 'span_tokenizer.py:tokenize', 'block_token.py:CodeFence.__init__', 'block_token.py:Footnote.__init__'],
+       note='histories are the symbolic variable: every sequence of n documents drawn from 8 probes that put the same strings (entities without semicolon, backslash escapes) into '
+            'block-phase roles (fence info, definitions) and inline-phase roles (destinations, titles, code, text) is rendered in one fresh interpreter; every output equals the one '
+            'obtained in an interpreter that rendered nothing else.  Solver-enumerated finite domain; catches result caches whose key forgets the phase')
+def g4_histories(i1: int, i2: int, i3: int) -> bool:
+    """
+    pre: 0 <= i1 < 8 and 0 <= i2 < 8 and 0 <= i3 < 8
+    post: _
+    """
+    from vfy.lemma import untraced
+    n = P('n')
+    seq = [_pick(i1, 8), _pick(i2, 8), _pick(i3, 8) if n > 2 else 0][:n]
+    with untraced():
+        outs = run_history(P('r'), seq)
+        base = role_baseline()[P('r')]
+    for j, i in enumerate(seq):
+        if outs[j] != base[i]:
+            return False
+    return True
